@@ -9,6 +9,12 @@ import os
 
 from . import REPO
 
+# standard-library calls that change state of the whole process (visible to every other call, also one in progress)
+PROCESS_SETTERS = {"setrecursionlimit", "setswitchinterval", "settrace", "setprofile", "chdir", "umask", "putenv", "unsetenv",
+                   "setlocale", "seed", "simplefilter", "filterwarnings", "resetwarnings", "signal", "basicConfig", "setcontext",
+                   "set_threshold", "setdefaulttimeout", "reload", "tzset", "setrlimit", "set_int_max_str_digits",
+                   "setdefaultencoding", "install", "set_start_method", "addaudithook", "setLevel", "addHandler", "disable"}
+
 MUTATORS = {"append", "extend", "insert", "pop", "remove", "clear", "update", "add", "discard", "setdefault",
             "sort", "reverse", "popitem", "__setitem__", "__delitem__"}
 
@@ -167,7 +173,7 @@ def frame_obligations(modules: dict):
             # the first parameter of a classmethod is the class object itself: shared by every call in the process
             if any(ast.unparse(d).split(".")[-1] == "classmethod" for d in fn.decorator_list) and fn.args.args:
                 visible_local = visible_local - {fn.args.args[0].arg}
-            bad_global, bad_store, bad_mut, bad_self, bad_dyn, bad_default = [], [], [], [], [], []
+            bad_global, bad_store, bad_mut, bad_self, bad_dyn, bad_default, bad_proc = [], [], [], [], [], [], []
             if gdecl:
                 bad_global = sorted(gdecl)
             for n in _walk_own(fn):
@@ -191,6 +197,9 @@ def frame_obligations(modules: dict):
                         r = root_name(f.value)
                         if r is not None and r not in visible_local:
                             bad_mut.append("%s (line %d)" % (ast.unparse(f), n.lineno))
+                    if ((isinstance(f, ast.Attribute) and f.attr in PROCESS_SETTERS and (root_name(f.value) is None or root_name(f.value) not in visible_local))
+                            or (isinstance(f, ast.Name) and f.id in PROCESS_SETTERS and f.id not in visible_local)):
+                        bad_proc.append("%s (line %d)" % (ast.unparse(f), n.lineno))
                     if isinstance(f, ast.Name) and f.id in ("globals", "vars", "exec", "eval"):
                         bad_dyn.append("%s() (line %d)" % (f.id, n.lineno))
                     if isinstance(f, ast.Name) and f.id in ("setattr", "delattr") and n.args:
@@ -211,6 +220,9 @@ def frame_obligations(modules: dict):
             rec("frame/%s/no_shared_mutation" % base, not bad_mut,
                 "no mutating method call on an object that is not local to the call", "; ".join(bad_mut))
             rec("frame/%s/no_dynamic_state" % base, not bad_dyn, "no globals()/exec/setattr on non-local objects", "; ".join(bad_dyn))
+            rec("frame/%s/no_process_wide_setter" % base, not bad_proc,
+                "no call of a standard-library function that changes process-wide state (recursion limit, cwd, locale, warnings, ...)",
+                "; ".join(bad_proc))
             rec("frame/%s/no_mutable_default" % base, not bad_default, "no mutable default argument", "; ".join(bad_default))
         # module-level mutable bindings: not mutated, not escaping un-copied
         for name, (kind, val) in sorted(mb.items()):
